@@ -46,6 +46,9 @@ type world struct {
 	net *simnet.Net
 	bg  context.Context
 	n   int
+	// set by dialByCommand for the next dial
+	byCmd    bool
+	byCmdTag string
 }
 
 type xres struct {
@@ -60,6 +63,14 @@ var msgC = []byte("hello-from-dialer-over-claim-session")
 var msgS = []byte("hello-from-listener-over-claim-session")
 
 // dial makes `from` open a connection to `to` naming session sid, then they exchange a message each way.
+// dialByCommand: the dialer does not name the session; it must find it through the
+// (tag, peer address, command) mapping that minting / importing installed.
+func (w *world) dialByCommand(from, to *node, tag string, cmd int) *xres {
+	w.byCmdTag, w.byCmd = tag, true
+	defer func() { w.byCmd = false }()
+	return w.dial(from, to, "", cmd)
+}
+
 func (w *world) dial(from, to *node, sid string, cmd int) *xres {
 	w.n++
 	r := &xres{}
@@ -67,10 +78,15 @@ func (w *world) dial(from, to *node, sid string, cmd int) *xres {
 	ce.Tap()
 	se.Tap()
 	cs, ss := stream.NewStream(ce), stream.NewStream(se)
+	byCmd, byTag := w.byCmd, w.byCmdTag
 	w.s.Go(fmt.Sprintf("dialer%d", w.n), func() {
 		cfg := hs.Cfg(security.SecurityRequired, security.SecurityRequired, []security.AuthMethod{security.AuthClaimToBe}, hs.AES, cmd)
 		cfg.SessionCache = from.cache
 		cfg.SessionID = sid
+		if byCmd {
+			cfg.SecurityTag = byTag
+			cfg.PeerName = "<" + to.addr + ">"
+		}
 		r.cn, r.cerr = security.NewAuthenticator(cfg, cs).ClientHandshake(w.bg)
 		if r.cerr != nil {
 			ce.Close()
@@ -155,6 +171,7 @@ func run(s *kernel.Sim, c *scen.Case) {
 	if t.Choose("peeraddr", 2) == 1 {
 		opts.PeerAddr = "<" + B.addr + ">"
 	}
+	opts.Tag = kernel.Pick(t, "tag", "", "", "claimtag")
 	desc := fmt.Sprintf("sinful=%s enc=%v integ=%v ciphers=%q version=%q lifetime=%v validcmds=%v peeraddr=%q", opts.Sinful, ptr(opts.Encryption), ptr(opts.Integrity), opts.CryptoMethods, opts.RemoteVersion, lifetime, opts.ValidCommands, opts.PeerAddr)
 	sigOpts := fmt.Sprintf("sinful#%d/ciphers=%s/lifetime=%v", indexOf(sinfuls, opts.Sinful), opts.CryptoMethods, lifetime > 0)
 	// mint at an arbitrary instant, not on a whole second of the simulated clock
@@ -166,7 +183,7 @@ func run(s *kernel.Sim, c *scen.Case) {
 	}
 	mintedAt := time.Now()
 	claim := minted.ClaimID()
-	sid, err := security.ImportClaimSession(B.cache, claim, security.ClaimSessionOptions{PeerAddr: "<" + A.addr + ">"})
+	sid, err := security.ImportClaimSession(B.cache, claim, security.ClaimSessionOptions{PeerAddr: "<" + A.addr + ">", Tag: opts.Tag})
 	if err != nil {
 		s.Violate("import-failed", sigOpts, fmt.Sprintf("%s: import of a freshly minted claim id failed: %v", desc, err))
 		return
@@ -268,11 +285,34 @@ func run(s *kernel.Sim, c *scen.Case) {
 		return
 	}
 	s.Probe("both-directions-resume")
+	// ... and without naming it, through the (tag, peer address, command) mapping that minting
+	// and importing install for the commands the claim carries
+	if len(opts.ValidCommands) > 0 {
+		vc := opts.ValidCommands[t.Choose("bycmd", len(opts.ValidCommands))]
+		if !check(w.dialByCommand(B, A, opts.Tag, vc), "importer->minter by command", "fresh") {
+			return
+		}
+		if opts.PeerAddr != "" {
+			if !check(w.dialByCommand(A, B, opts.Tag, vc), "minter->importer by command", "fresh") {
+				return
+			}
+			s.Probe("both-directions-resume-by-command")
+		}
+	}
+	// one character of the secret changed: another digit, the other case of a hex letter,
+	// or a blank
 	pos := len(claim) - 1 - t.Choose("secretpos", len(secret))
 	bad := []byte(claim)
-	if bad[pos] == '0' {
+	switch kind := t.Choose("corruption", 3); {
+	case kind == 1 && bad[pos] >= 'a' && bad[pos] <= 'f':
+		bad[pos] -= 'a' - 'A'
+	case kind == 1 && bad[pos] >= 'A' && bad[pos] <= 'F':
+		bad[pos] += 'a' - 'A'
+	case kind == 2 && pos == len(claim)-1:
+		bad[pos] = ' '
+	case bad[pos] == '0':
 		bad[pos] = '1'
-	} else {
+	default:
 		bad[pos] = '0'
 	}
 	// the file-transfer session derived from the same claim id: both holders of the claim id
